@@ -168,6 +168,7 @@ package kvstore
 //@   ensures  #others [C11]: forall h uint64, j int {k.tables[j].has(h)} :: 0 <= j && j < len(k.tables) && (h != hkey || j == len(k.tables) - 1) ==>
 //@                k.tables[j].has(h) == old(k.tables[j].has(h)) && (k.tables[j].has(h) ==> k.tables[j].off(h) == old(k.tables[j].off(h)))
 //@   ensures  #same_tables: len(k.tables) == old(len(k.tables)) && forall j int {k.tables[j]} :: 0 <= j && j < len(k.tables) ==> k.tables[j] == old(k.tables[j])
+//@   ensures  #others_everywhere [C11]: forall t *table.Table, h uint64 {t.has(h)} :: h != hkey ==> t.has(h) == old(t.has(h)) && t.off(h) == old(t.off(h))
 //@   ensures  #last_kept [C11]: len(k.tables) >= 1 ==> forall h uint64 {k.tables[len(k.tables)-1].keyOf(h)} {k.tables[len(k.tables)-1].valOf(h)} {k.tables[len(k.tables)-1].ttlOf(h)} {k.tables[len(k.tables)-1].tsOf(h)} ::
 //@                k.tables[len(k.tables)-1].keyOf(h) == old(k.tables[len(k.tables)-1].keyOf(h)) && k.tables[len(k.tables)-1].valOf(h) == old(k.tables[len(k.tables)-1].valOf(h)) &&
 //@                k.tables[len(k.tables)-1].ttlOf(h) == old(k.tables[len(k.tables)-1].ttlOf(h)) && k.tables[len(k.tables)-1].tsOf(h) == old(k.tables[len(k.tables)-1].tsOf(h))
@@ -177,6 +178,7 @@ package kvstore
 //@   ensures  #states: forall j int {k.tables[j]} :: 0 <= j && j < len(k.tables) ==> k.tables[j].state == old(k.tables[j].state) && k.tables[j].offset == old(k.tables[j].offset)
 //@   modifies every(k.tables[0].garbage), every(k.tables[0].inuse), every(map(k.tables[0].hkeys)), every(k.tables[0].offsetIndex.set)
 //@   loop 0 invariant #bounds: -2 <= i && i <= len(k.tables) - 2 && len(k.tables) == old(len(k.tables))
+//@   loop 0 invariant #others_everywhere [C11] uses(bounds, tables): forall t *table.Table, h uint64 {t.has(h)} :: h != hkey ==> t.has(h) == old(t.has(h)) && t.off(h) == old(t.off(h))
 //@   loop 0 invariant #tables uses(bounds, inv_weak, maps_distinct, frames, callee_inv): forall j int {k.tables[j]} :: 0 <= j && j < len(k.tables) ==> k.tables[j] == old(k.tables[j]) && k.tables[j] != nil && k.tables[j].inv() && k.tables[j].allocated == k.tableSize &&
 //@                      k.tables[j].state == old(k.tables[j].state) && k.tables[j].offset == old(k.tables[j].offset)
 //@   loop 0 invariant #gone uses(bounds, tables): forall j int {k.tables[j]} :: i < j && j < len(k.tables) - 1 ==> !k.tables[j].has(hkey)
@@ -210,7 +212,11 @@ package kvstore
 //@                k.tables[len(k.tables)-1].keyOf(hkey) == value.key && k.tables[len(k.tables)-1].valOf(hkey) == old(bstr(value.value)) &&
 //@                k.tables[len(k.tables)-1].ttlOf(hkey) == value.ttl && k.tables[len(k.tables)-1].tsOf(hkey) == value.timestamp
 //@   ensures  #unique [C11 C20]: result == nil ==> forall j int {k.tables[j]} :: 0 <= j && j < len(k.tables) - 1 ==> !k.tables[j].has(hkey)
+//@   ensures  #others_kept [C11]: result == nil ==> forall t *table.Table, h uint64 {t.has(h)} :: h != hkey && old(k.owns(t)) ==> k.owns(t) && t.has(h) == old(t.has(h)) && (t.has(h) ==> t.off(h) == old(t.off(h)))
+//@   ensures  #no_other_key_appears [C11]: result == nil ==> forall t *table.Table, h uint64 {t.has(h)} :: h != hkey && k.owns(t) && !old(k.owns(t)) ==> !t.has(h)
 //@   ensures  #inv_out: k.inv()
+//@   loop 0 invariant #others_so_far [C11]: forall t *table.Table, h uint64 {t.has(h)} :: h != hkey && old(k.owns(t)) ==> k.owns(t) && t.has(h) == old(t.has(h)) && (t.has(h) ==> t.off(h) == old(t.off(h)))
+//@   loop 0 invariant #no_other_key_so_far [C11]: forall t *table.Table, h uint64 {t.has(h)} :: h != hkey && k.owns(t) && !old(k.owns(t)) ==> !t.has(h)
 //@   loop 0 invariant #retry: k.inv() && len(k.tables) >= 1 && 29 + len(value.key) + len(value.value) < k.tableSize &&
 //@                (forall i int {k.tables[i]} :: 0 <= i && i < len(k.tables) ==> base(value.value) != base(k.tables[i].memory)) &&
 //@                bstr(value.value) == old(bstr(value.value))
@@ -218,7 +224,7 @@ package kvstore
 //@   loop 0 decreases ite(k.fits(29 + len(value.key) + len(value.value)), 0, 1)
 
 //@ func (k *KVStore) PutRaw(hkey uint64, value []byte) error
-//@   hint pre\..*deleteStale\.(uniq_others|inv_weak) uses(retry, size_fits, frames, keytypes, inv_in, wf, entry, separate, size)
+//@   hint pre\..*deleteStale\.(uniq_others|inv_weak) uses(retry, size_fits, frames, keytypes, inv_in, size)
 //@   props C11 C04 C17 C20
 //@   flag termination
 //@   requires #inv_in: k.inv()
@@ -229,7 +235,11 @@ package kvstore
 //@   ensures  #err_kind [C17]: result == nil || result == storage.ErrEntryTooLarge
 //@   ensures  #stored [C11 C04]: result == nil ==> len(k.tables) >= 1 && k.tables[len(k.tables)-1].has(hkey) && k.tables[len(k.tables)-1].size(hkey) == len(value)
 //@   ensures  #unique [C11 C20]: result == nil ==> forall j int {k.tables[j]} :: 0 <= j && j < len(k.tables) - 1 ==> !k.tables[j].has(hkey)
+//@   ensures  #others_kept [C11]: result == nil ==> forall t *table.Table, h uint64 {t.has(h)} :: h != hkey && old(k.owns(t)) ==> k.owns(t) && t.has(h) == old(t.has(h)) && (t.has(h) ==> t.off(h) == old(t.off(h)))
+//@   ensures  #no_other_key_appears [C11]: result == nil ==> forall t *table.Table, h uint64 {t.has(h)} :: h != hkey && k.owns(t) && !old(k.owns(t)) ==> !t.has(h)
 //@   ensures  #inv_out: k.inv()
+//@   loop 0 invariant #others_so_far [C11]: forall t *table.Table, h uint64 {t.has(h)} :: h != hkey && old(k.owns(t)) ==> k.owns(t) && t.has(h) == old(t.has(h)) && (t.has(h) ==> t.off(h) == old(t.off(h)))
+//@   loop 0 invariant #no_other_key_so_far [C11]: forall t *table.Table, h uint64 {t.has(h)} :: h != hkey && k.owns(t) && !old(k.owns(t)) ==> !t.has(h)
 //@   loop 0 invariant #retry: k.inv() && len(k.tables) >= 1 && len(value) < k.tableSize && entry.wfAt(elems(value), off(value), len(value)) &&
 //@                (forall i int {k.tables[i]} :: 0 <= i && i < len(k.tables) ==> base(value) != base(k.tables[i].memory))
 //@   loop 0 invariant #size_fits: len(value) < k.tableSize
